@@ -882,7 +882,7 @@ fn gen_bkm(gg: &mut GraphGen, g: &mut Graph, kinds: &mut Kinds, node: usize) {
   let n_params = gg.rng.below(3) as usize;
   let mut params = vec![];
   for p in 0..n_params {
-    let pname = if gg.rng.chance(1, 8) && !g.inputs.is_empty() { gg.rng.pick(&g.inputs).name.clone() } else { format!("p{}", p) };
+    let pname = if gg.rng.chance(1, 3) && !g.inputs.is_empty() { gg.rng.pick(&g.inputs).name.clone() } else { format!("p{}", p) };
     if params.iter().any(|(n, _): &(String, Ty)| *n == pname) {
       continue;
     }
@@ -1032,6 +1032,22 @@ pub fn corpus() -> Vec<(&'static str, Graph)> {
       ],
       bkms: vec![],
       services: vec![svc("_s", "S", Ty::Untyped, &[], &["_a"], &[], &["_m"])],
+    },
+  ));
+  // formal parameters named like the caller's inputs, bound crosswise by a boxed invocation: every binding
+  // formula is evaluated in the scope of the caller (not in a scope that already holds earlier bindings)
+  v.push((
+    "boxed-invocation-crosswise",
+    Graph {
+      inputs: vec![inp("_w", "w", Ty::Number), inp("_h", "h", Ty::Number)],
+      decisions: vec![
+        dec("_l", "L", Ty::Untyped, &["_w", "_h"], &[], &["_r"], lit("R(h, w)")),
+        dec("_b", "B", Ty::Untyped, &["_w", "_h"], &[], &["_r"], Logic::Inv(Box::new(lit("R")), vec![("w".into(), lit("h")), ("h".into(), lit("w"))], false)),
+        dec("_b2", "B2", Ty::Untyped, &["_w", "_h"], &[], &["_r"], Logic::Inv(Box::new(lit("R")), vec![("w".into(), lit("h + 1")), ("h".into(), lit("w * 2"))], true)),
+        dec("_b3", "B3", Ty::Untyped, &["_w", "_h"], &[], &["_r"], Logic::Inv(Box::new(lit("R")), vec![("h".into(), lit("w")), ("w".into(), lit("h"))], false)),
+      ],
+      bkms: vec![bkm("_r", "R", Ty::Untyped, &[("w", Ty::Number), ("h", Ty::Number)], &[], lit("w - h * 2"))],
+      services: vec![],
     },
   ));
   // knowledge models requiring knowledge models; invocation by literal and by boxed invocation
